@@ -255,7 +255,7 @@ func init() {
 				default:
 					return nil, nil
 				}
-				includeDeprecated := ctx.Arguments["includeDeprecated"].(bool)
+				includeDeprecated, _ := ctx.Arguments["includeDeprecated"].(bool)
 				ret := []field{}
 				for name, def := range fields {
 					if (def.DeprecationReason == "" || includeDeprecated) && def.RequiredFeatures.IsSubsetOf(ctx.Features) {
@@ -316,7 +316,7 @@ func init() {
 			},
 			Resolve: func(ctx schema.FieldContext) (interface{}, error) {
 				if t, ok := ctx.Object.(*schema.EnumType); ok {
-					includeDeprecated := ctx.Arguments["includeDeprecated"].(bool)
+					includeDeprecated, _ := ctx.Arguments["includeDeprecated"].(bool)
 					ret := []enumValue{}
 					for name, def := range t.Values {
 						if def.DeprecationReason == "" || includeDeprecated {
